@@ -152,9 +152,13 @@ def build_all(variants):
         list(ex.map(build, variants))
 
 
-def run_harness(variant, args, timeout=1800):
+def run_harness(variant, args, timeout=1500):
     b = build(variant)
-    r = subprocess.run([b] + args, capture_output=True, text=True, timeout=timeout)
+    try:
+        r = subprocess.run([b] + args, capture_output=True, text=True, timeout=timeout)
+    except subprocess.TimeoutExpired:
+        # the real code did not come back: reported as non-termination by C06, as a tool error by the other checks
+        return {'crash': True, 'hang': True, 'returncode': None, 'stderr': 'timeout after %ds' % timeout, 'stdout': ''}
     if r.returncode != 0:
         return {'crash': True, 'returncode': r.returncode, 'stderr': r.stderr[-2000:], 'stdout': r.stdout[-2000:]}
     try:
@@ -757,8 +761,12 @@ def run_check(pid, tier, seed):
         out_lines.append('VIOLATION property=%s replay=%s' % (pid, path))
         out_lines.append('  clause %s: %s (build %s, %s, event %s%s)' % (v['prop'], v['msg'], v.get('variant'), v.get('source'), v.get('n'), ', after a caught panic' if v.get('faulted') else ''))
         nviol += 1
-    if pid in ('C01', 'C03', 'C07', 'C19'):
-        for c in crashes:
+    hangs = [c for c in crashes if c['harness'].get('hang')]
+    crashes = [c for c in crashes if not c['harness'].get('hang')]
+    if hangs and pid != 'C06':
+        raise ToolError('the harness timed out in %s (reported as non-termination by the C06 check)' % [c['variant'] for c in hangs])
+    if pid in ('C01', 'C03', 'C07', 'C19') or (pid == 'C06' and hangs):
+        for c in (hangs if pid == 'C06' else crashes):
             path = os.path.join(REPLAYS, '%s-crash-%s.json' % (pid, hashlib.sha256(json.dumps(c['params'], sort_keys=True).encode()).hexdigest()[:10]))
             os.makedirs(REPLAYS, exist_ok=True)
             with open(path, 'w') as fh:
